@@ -52,6 +52,7 @@ class LoopSpec:
         self.modifies = []
         self.unroll = None
         self.exits = []
+        self.steps = []
 
 
 class FuncContract:
@@ -409,6 +410,13 @@ def parse_file(path, cs, repo='/repo', default_pkg=None):
                 if c.label is None:
                     c.label = str(len(ls.exits) + 1)
                 ls.exits.append(c)
+            elif sub == 'step':
+                # relates the state at the end of an iteration to the state at its beginning
+                # (`prev(e)`): checked at every back edge - `loop k step left == prev(left) - used`
+                c = mk(mm.group(4), lbl)
+                if c.label is None:
+                    c.label = str(len(ls.steps) + 1)
+                ls.steps.append(c)
             else:
                 raise ValueError('%s:%d: bad loop clause kind %s' % (path, n, sub))
         elif kw == 'spec':
